@@ -19,6 +19,7 @@ pub open spec fn d6_ok(parts: Parts) -> bool { STRICT_D6 || plus_free(parts.uri.
 /// C15: the returned URI was built from exactly `canonical path [? canonical merged query]`
 pub open spec fn folded_uri_ok(q: QMap, path: Seq<u8>, uri: Uri) -> bool {
     exists|qs: Seq<u8>| #[trigger] is_canon_query(q, qs) && uri.built_from == Some(path + (if qs.len() > 0 { seq![0x3fu8] + qs } else { Seq::<u8>::empty() }))
+        && uri_accepts(path + (if qs.len() > 0 { seq![0x3fu8] + qs } else { Seq::<u8>::empty() }))
 }
 pub open spec fn url_query(parts: Parts) -> Seq<u8> { if parts.uri.query is Some { parts.uri.query->Some_0 } else { Seq::<u8>::empty() } }
 
@@ -385,6 +386,10 @@ use super::*;
         r is Ok ==> accepted::<G>(request.parts, request.body.body_bytes()->Ok_0, options, required_headers.always_spec(), required_headers.if_in_request_spec(),
             required_headers.prefixes_spec(), region, service, server_timestamp, *old(get_signing_key), old(get_signing_key).calls(), final(get_signing_key).calls(), r->Ok_0)
         , //# C01 C02 C04 C14 C15 name=success_means_every_stage_passed_and_signature_matches
+        // C01 + C18: conversely success happens ONLY for requests that meet the acceptance condition (lemma_accepted_is_acceptable: the relations the
+        // stage contracts use are functional), so with the next clause: Ok <==> body conversion Ok && acceptable - the outcome is a function of the input
+        r is Ok ==> acceptable::<G>(request.parts, request.body.body_bytes()->Ok_0, options, required_headers.always_spec(),
+            required_headers.if_in_request_spec(), required_headers.prefixes_spec(), region, service, server_timestamp, *old(get_signing_key)), //# C01 C18 name=accepted_only_if_acceptable
         // C02: a request that meets every stage's acceptance condition is accepted, however its path, query and headers are spelled
         request.body.body_bytes() is Ok && acceptable::<G>(request.parts, request.body.body_bytes()->Ok_0, options, required_headers.always_spec(),
             required_headers.if_in_request_spec(), required_headers.prefixes_spec(), region, service, server_timestamp, *old(get_signing_key))
@@ -430,6 +435,8 @@ use super::*;
             provider_answer::<G, GetSigningKeyRequest, GetSigningKeyResponse, BoxError>(*old(get_signing_key), req), (parts, body, sigv4_response), canonical_request, auth, d, req));
         assert(accepted::<G>(request.parts, request.body.body_bytes()->Ok_0, options, required_headers.always_spec(), required_headers.if_in_request_spec(),
             required_headers.prefixes_spec(), region, service, server_timestamp, *old(get_signing_key), old(get_signing_key).calls(), final(get_signing_key).calls(), (parts, body, sigv4_response)));
+        lemma_accepted_is_acceptable::<G>(request.parts, request.body.body_bytes()->Ok_0, options, required_headers.always_spec(), required_headers.if_in_request_spec(),
+            required_headers.prefixes_spec(), region, service, server_timestamp, *old(get_signing_key), old(get_signing_key).calls(), final(get_signing_key).calls(), (parts, body, sigv4_response));
     }
 //@ end
 } // mod validate_m
